@@ -298,7 +298,7 @@ def _run(pid, cfg, tier, seed, repo, work, t0):
     n_lemmas = sum(u["asm"].proof_fns for u in units if u["asm"] is not None)
     for k in kres:
         for h in k["harnesses"]:
-            if pid in h["props"]:
+            if serves(h["props"], pid):
                 obligations.append(dict(unit=k["group"], function=h["target"], obligation=h["name"], kind="kani-harness",
                                         clause=h["claim"], backend="kani/cbmc", checks=h.get("checks", 0), bounded=h.get("bounded", False)))
         fns += k.get("functions", [])
@@ -326,7 +326,7 @@ def _run(pid, cfg, tier, seed, repo, work, t0):
     kfails = []
     for k in kres:
         for h in k["harnesses"]:
-            if pid in h["props"] and h["status"] == "FAILED":
+            if serves(h["props"], pid) and h["status"] == "FAILED":
                 kfails.append((k, h))
 
     # second opinion (registry.SECOND_OPINION): a Verus failure in a function whose complete Kani twin passes is not a violation
@@ -402,7 +402,7 @@ def _run(pid, cfg, tier, seed, repo, work, t0):
             solver_ms=solver_ms,
             rewrite_rule_hits=rule_hits,
             vacuity_canaries=canaries,
-            kani=[dict(group=k["group"], harnesses=[{kk: vv for kk, vv in h.items() if kk != "output"} for h in k["harnesses"] if pid in h["props"]]) for k in kres],
+            kani=[dict(group=k["group"], harnesses=[{kk: vv for kk, vv in h.items() if kk != "output"} for h in k["harnesses"] if serves(h["props"], pid)]) for k in kres],
             samples=[o for o in obligations][:400],
             undecided=undecided,
             extraction_notes=["%s: %s" % (u["name"], n) for u in units if u["asm"] is not None for n in u["asm"].notes],
